@@ -64,40 +64,20 @@ func runC09(c *Ctx, r *Report) {
 	{
 		fn := evalInternal
 		fname := ssaFuncName(fn)
-		entry := fn.Blocks[0]
-		// no call in the entry block before the context test, and the entry block tests s.Context != nil
-		okEntry := false
-		if ifi, ok := entry.Instrs[len(entry.Instrs)-1].(*ssa.If); ok {
-			if bin, ok := ifi.Cond.(*ssa.BinOp); ok && bin.Op == token.NEQ && isNilConst(bin.Y) {
-				if ld, ok := bin.X.(*ssa.UnOp); ok && isFieldAddrOf(ld.X, stateT, "Context") {
-					okEntry = true
-				}
-			}
-		}
-		for _, in := range entry.Instrs {
-			if _, isCall := in.(ssa.CallInstruction); isCall {
-				okEntry = false
-			}
-		}
+		arm, okEntry := c.expiredContextArm(fn)
 		r.Check(okEntry, "C09.R1", fname, "the first action of evalInternal is the s.Context != nil test", c.Pos(fn.Pos()), "something is evaluated before the deadline/cancellation test: a loop whose iterations only go through evalInternal no longer notices the deadline")
 		if okEntry {
 			// on the true edge: Err() != nil -> return without evaluating
-			tb := entry.Succs[0]
 			okErr := false
-			if ifi, ok := tb.Instrs[len(tb.Instrs)-1].(*ssa.If); ok {
-				if bin, ok := ifi.Cond.(*ssa.BinOp); ok && bin.Op == token.NEQ && isNilConst(bin.Y) {
-					if call, ok := bin.X.(*ssa.Call); ok && call.Common().IsInvoke() && call.Common().Method.Name() == "Err" {
-						rb := tb.Succs[0]
-						if _, isRet := rb.Instrs[len(rb.Instrs)-1].(*ssa.Return); isRet {
-							evals := false
-							for _, in := range rb.Instrs {
-								if isCallTo(in, c.Fn("eval", "State.evalInternal"), c.Fn("eval", "State.Eval")) {
-									evals = true
-								}
-							}
-							okErr = !evals
+			if arm != nil {
+				if _, isRet := arm.Instrs[len(arm.Instrs)-1].(*ssa.Return); isRet {
+					evals := false
+					for _, in := range arm.Instrs {
+						if isCallTo(in, c.Fn("eval", "State.evalInternal"), c.Fn("eval", "State.Eval")) {
+							evals = true
 						}
 					}
+					okErr = !evals
 				}
 			}
 			r.Check(okErr, "C09.R1", fname, "a cancelled or expired context returns immediately", c.Pos(fn.Pos()), "when Context.Err() is non-nil evalInternal does not return at once")
@@ -1218,4 +1198,76 @@ func (c *Ctx) programChosenFormat(v ssa.Value, depth int) bool {
 		return false
 	}
 	return true
+}
+
+// expiredContextArm: the block of evalInternal entered when the input's context has expired, found as the true
+// edge of `s.Context.Err() != nil` under `s.Context != nil`, or as the true edge of a predicate method of the
+// State that is exactly that test. first reports whether that test is the first thing evalInternal does (no
+// other call before it).
+func (c *Ctx) expiredContextArm(fn *ssa.Function) (arm *ssa.BasicBlock, first bool) {
+	stateT := c.TypeNamed("eval", "State")
+	isCtxLoad := func(v ssa.Value) bool {
+		ld, ok := v.(*ssa.UnOp)
+		return ok && isFieldAddrOf(ld.X, stateT, "Context")
+	}
+	isErrTest := func(v ssa.Value) bool {
+		bin, ok := v.(*ssa.BinOp)
+		if !ok || bin.Op != token.NEQ || !isNilConst(bin.Y) {
+			return false
+		}
+		call, ok := bin.X.(*ssa.Call)
+		return ok && call.Common().IsInvoke() && call.Common().Method.Name() == "Err" && isCtxLoad(call.Common().Value)
+	}
+	isNilTest := func(v ssa.Value) bool {
+		bin, ok := v.(*ssa.BinOp)
+		return ok && bin.Op == token.NEQ && isNilConst(bin.Y) && isCtxLoad(bin.X)
+	}
+	// predicate: a method of the State whose only call is Context.Err() and which returns the conjunction
+	isPredicate := func(p *ssa.Function) bool {
+		if p == nil || len(p.Blocks) == 0 || len(p.Params) != 1 || p.Signature.Results().Len() != 1 {
+			return false
+		}
+		nilT, errT, other := false, false, false
+		eachInstr(p, func(in ssa.Instruction) {
+			switch x := in.(type) {
+			case *ssa.BinOp:
+				if isNilTest(x) {
+					nilT = true
+				} else if isErrTest(x) {
+					errT = true
+				} else {
+					other = true
+				}
+			case *ssa.Call:
+				if !(x.Common().IsInvoke() && x.Common().Method.Name() == "Err") {
+					other = true
+				}
+			case *ssa.Store, *ssa.MapUpdate, *ssa.Go, *ssa.Defer, *ssa.Send:
+				other = true
+			}
+		})
+		return nilT && errT && !other
+	}
+	entry := fn.Blocks[0]
+	ifi, ok := entry.Instrs[len(entry.Instrs)-1].(*ssa.If)
+	if !ok {
+		return nil, false
+	}
+	calls := 0
+	for _, in := range entry.Instrs {
+		if _, isCall := in.(ssa.CallInstruction); isCall {
+			calls++
+		}
+	}
+	if isNilTest(ifi.Cond) {
+		tb := entry.Succs[0]
+		if ifi2, ok := tb.Instrs[len(tb.Instrs)-1].(*ssa.If); ok && isErrTest(ifi2.Cond) {
+			return tb.Succs[0], calls == 0
+		}
+		return nil, calls == 0
+	}
+	if call, ok := ifi.Cond.(*ssa.Call); ok && isPredicate(call.Common().StaticCallee()) && len(call.Common().Args) == 1 && call.Common().Args[0] == ssa.Value(fn.Params[0]) {
+		return entry.Succs[0], calls == 1
+	}
+	return nil, false
 }
